@@ -1139,6 +1139,28 @@ static void fam_c18_purge(G& g, Plan& p) {
     P.ops.push_back(mk(OP_purge_check, -1, 1, (uint64_t)rounds, w1 * (uint64_t)rounds));
     return;
   }
+  // scattered: many pages of one segment, a random subset is freed (the others stay live in between, so the freed spans do not
+  // coalesce and lie all over the segment's 4 MiB commit-mask words); every one of them has to be purged
+  if (W == 0 && delay >= 0 && g.chance(0.45)) {
+    P.ops.clear(); P.ops.push_back(mk(OP_malloc, 100, 64));
+    int n = 20 + (int)g.below(30); if (n > 90) n = 90;
+    for (int i = 0; i < n; i++) P.ops.push_back(mk(OP_malloc, i, 130 * KiB + g.below(g.chance(0.5) ? 120 * KiB : 600 * KiB)));
+    std::vector<int> sent, watch;
+    for (int k = 0; k < 4; k++) sent.push_back((int)g.below((uint64_t)n));
+    for (int i = 0; i < n; i++) if (std::find(sent.begin(), sent.end(), i) == sent.end() && g.chance(0.4)) watch.push_back(i);
+    for (int i : watch) { Op o = mk(OP_free, i); o.flags = OPF_WATCH; P.ops.push_back(o); if (delay == 0) P.ops.push_back(mk(OP_purge_check, -1, 1, 0)); }
+    uint64_t sw = (uint64_t)(delay > 0 ? delay : 0) + (uint64_t)ext * (watch.size() + 8) + 2;
+    int rounds = 3;
+    for (int r = 0; r < rounds; r++) {
+      P.ops.push_back(mk(OP_advance, -1, sw + g.below(5)));
+      { Op o = mk(OP_free, sent[(size_t)r]); o.flags = OPF_SENTINEL; P.ops.push_back(o); }
+      P.ops.push_back(mk(OP_collect, -1, 0));
+      for (int i = 0; i < 4; i++) P.ops.push_back(mk(OP_malloc, 101 + i, 48 + g.below(16)));
+      for (int i = 0; i < 4; i++) P.ops.push_back(mk(OP_free, 101 + i));
+    }
+    P.ops.push_back(mk(OP_purge_check, -1, 1, (uint64_t)rounds, sw * (uint64_t)rounds));
+    return;
+  }
   // re-armed arena schedule: a whole segment is freed and taken again before its purge is due, a non-forced pass then finds the
   // arena's deadline expired with nothing left to purge; what is freed after that must still be purged by time
   if (nhuge && delay > 0 && g.chance(0.35)) {
